@@ -90,10 +90,16 @@ def nested_types(rng, t):
     for a in base[:4]:
         out.append(Tuple[Tuple[a, a], Tuple[a, a]])
     out.append(Tuple[bool, Tuple[QT.Qint2, Tuple[bool, QT.Qint2]]])
+    must = []
+    for a in base[:3]:  # three levels, the deep element FIRST or in the middle
+        must.append(Tuple[Tuple[Tuple[a, bool], QT.Qint2], bool])
+        must.append(Tuple[bool, Tuple[Tuple[a, bool], bool], QT.Qint2])
+        must.append(Tuple[Tuple[Tuple[bool, bool], Tuple[a, bool]], a])          # a matrix-like element followed by another
+    must.append(Tuple[Tuple[Tuple[bool, bool], Tuple[bool, bool]], Tuple[Tuple[bool, bool], Tuple[bool, bool]]])
     out.append(Tuple[QT.Qchar, bool])
     out = [x for x in out if width(x) <= maxw]
     rng.shuffle(out)
-    return out[: (40 if t == "quick" else 400)]
+    return [x for x in must if width(x) <= maxw] + out[: (40 if t == "quick" else 400)]
 
 
 def run(pid):
